@@ -1026,6 +1026,152 @@ def mon_c07(case, obs):
 
 
 PROPS['C07'] = {'gen': gen_c07, 'monitors': [mon_c07]}
+# ----------------------------------------------------------------------------- C18
+
+def gen_c18(tier, seed):
+    g = G('u', seed)
+    r = g.rnd
+    n = 6 if tier == 'quick' else 150
+    blank = [(DATA, [0] * 0x200)]
+
+    def pair(kind, codeA, codeB, regs, mem, stepsA=1, stepsB=1, pcA=PC0, pcB=PC0):
+        base = blank + mem
+        rb = ['rw:%x' % a for a in (DATA + 0xfc, DATA + 0x100, DATA + 0x104, DATA + 0x13c, DATA + 0x140, DATA + 0x144, DATA + 0xc0, DATA + 0x80)]
+        ops = setup_ops(regs, base, codeA + [0x70] * 4, pcA) + ['st'] * stepsA + ['fs'] + rb
+        ops += setup_ops(regs, base, codeB + [0x70] * 4, pcB) + ['st'] * stepsB + ['fs'] + rb + ['X:' + kind]
+        g.add(ops, kind)
+
+    def pick(sz):
+        return r.choice(BVAL[sz]) if r.random() < 0.75 else r.randrange(1 << (8 * sz))
+
+    for sfx, sz in SIZES.items():
+        for base in ALU2:
+            for _ in range(n):
+                a, b = pick(sz), pick(sz)
+                if base in ('DIV', 'MOD') and r.random() < 0.2:
+                    a, b = (1 << (8 * sz)) - 1, 1 << (8 * sz - 1)
+                s = r.choice(src_forms(r, sz, a, 0))
+                d = r.choice(dst_forms(r, sz, b, 0))
+                regs = rnd_regs(r, psw_of(r.choice(allflags())))
+                regs.update(s[2]); regs.update(d[2])
+                pair('same', ins(OP[base + sfx + '2'], s[1], d[1]), ins(OP[base + sfx + '3'], s[1], d[1], d[1]), regs, s[3] + d[3])
+                # register operands vs memory operands holding the same values (result at operand size + flags)
+                hi = 0 if sz == 4 else (r.randrange(1 << 32) & ~((1 << (8 * sz)) - 1))
+                regs2 = rnd_regs(r, psw_of(r.choice(allflags())))
+                regs2[0] = a | hi
+                regs2[3] = b | (0 if sz == 4 else (r.randrange(1 << 32) & ~((1 << (8 * sz)) - 1)))
+                memv = [(DATA + 0x40, be(a, sz)), (DATA + 0x80, be(b, sz))]
+                pair('value:%d' % sz, ins(OP[base + sfx + '2'], reg(0), reg(3)),
+                     ins(OP[base + sfx + '2'], absa(DATA + 0x40), absa(DATA + 0x80)), regs2, memv, 1, 1)
+        for _ in range(n * 3):
+            v = pick(sz)
+            d = r.choice(dst_forms(r, sz, v, 0))
+            regs = rnd_regs(r, psw_of(r.choice(allflags())))
+            regs.update(d[2])
+            pair('same', ins(OP['INC' + sfx], d[1]), ins(OP['ADD' + sfx + '2'], lit(1), d[1]), regs, d[3])
+            pair('same', ins(OP['DEC' + sfx], d[1]), ins(OP['SUB' + sfx + '2'], lit(1), d[1]), regs, d[3])
+            pair('same', ins(OP['CLR' + sfx], d[1]), ins(OP['MOV' + sfx], lit(0), d[1]), regs, d[3])
+            s = r.choice(src_forms(r, sz, v, 0))
+            regs = rnd_regs(r, psw_of(r.choice(allflags())))
+            regs.update(s[2])
+            pair('same', ins(OP['TST' + sfx], s[1]), ins(OP['CMP' + sfx], lit(0), s[1]), regs, s[3])
+            d2 = r.choice(dst_forms(r, sz, pick(sz), 1))
+            regs = rnd_regs(r, psw_of(r.choice(allflags())))
+            regs.update(s[2]); regs.update(d2[2])
+            pair('same', ins(OP['MCOM' + sfx], s[1], d2[1]), ins(OP['XOR' + sfx + '3'], lit(-1), s[1], d2[1]), regs, s[3] + d2[3])
+            s2 = r.choice(src_forms(r, sz, pick(sz), 1))
+            regs = rnd_regs(r, psw_of(r.choice(allflags())))
+            regs.update(s[2]); regs.update(s2[2]); regs[5] = r.randrange(1 << 32)
+            pair('nz', ins(OP['BIT' + sfx], s[1], s2[1]), ins(OP['AND' + sfx + '3'], s[1], s2[1], reg(5)), regs, s[3] + s2[3])
+    for cnt in range(64):
+        for _ in range(2 if tier == 'quick' else 20):
+            v = pick(4)
+            cs = r.choice([lit(cnt) if cnt < 64 else immw(cnt), immw(cnt | (r.randrange(1 << 26) << 6)), reg(0)])
+            s2 = r.choice(src_forms(r, 4, v, 1))
+            d3 = r.choice(dst_forms(r, 4, pick(4), 1))
+            regs = rnd_regs(r, psw_of(r.choice(allflags())))
+            regs[0] = cnt | (r.randrange(1 << 26) << 6)
+            regs.update(s2[2]); regs.update(d3[2])
+            pair('same', ins(OP['ALSW3'], cs, s2[1], d3[1]), ins(OP['LLSW3'], cs, s2[1], d3[1]), regs, s2[3] + d3[3])
+    # push then pop = move (registers and flags; the dead stack word is the only other difference)
+    for _ in range(n * 6):
+        v = pick(4)
+        s = r.choice(src_forms(r, 4, v, 0))
+        regs = rnd_regs(r, psw_of(r.choice(allflags())))
+        regs.update(s[2])
+        rd = r.choice([3, 4, 5, 6, 7, 8])
+        pair('regs', ins(OP['PUSHW'], s[1]) + ins(OP['POPW'], reg(rd)), ins(OP['MOVW'], s[1], reg(rd)), regs, s[3], 2, 1)
+    # the same instruction wherever it is placed and at whatever alignment
+    for _ in range(n * 8):
+        base = r.choice(ALU2 + ['MOV'])
+        sfx = r.choice('WHB')
+        sz = SIZES[sfx]
+        s = r.choice(src_forms(r, sz, pick(sz), 0))
+        d = r.choice(dst_forms(r, sz, pick(sz), 0))
+        regs = rnd_regs(r, psw_of(r.choice(allflags())))
+        regs.update(s[2]); regs.update(d[2])
+        code = ins(OP[base + sfx + ('2' if base != 'MOV' else '')], s[1], d[1])
+        pair('same', code, code, regs, s[3] + d[3], 1, 1, PC0, r.choice([PC0 + 1, PC0 + 2, PC0 + 3, 0x7c0001, 0x700000, 0x7ffe02]))
+    return g.result('Both forms of every equivalent pair run from identical initial states in one case (memory and registers re-established in '
+                    'between) and compared with each other and with the model: 2-operand vs 3-operand with the destination repeated (ADD SUB MUL '
+                    'DIV MOD AND OR XOR x B/H/W, register / memory / immediate operands, boundary cross product incl. MIN/-1), register vs memory '
+                    'operands holding the same values, INC/ADD 1, DEC/SUB 1, TST/CMP 0, CLR/MOV 0, MCOM/XOR -1, BIT/AND (N Z), ALSW3/LLSW3 for all '
+                    'counts 0-63 and huge counts, PUSHW+POPW vs MOVW, and the same instruction at different addresses and alignments; all 16 '
+                    'initial condition-code combinations sampled.')
+
+
+def mon_c18(case, obs):
+    toks = case.split()[1:]
+    if not toks[-1].startswith('X:'):
+        return None
+    kind = toks[-1][2:]
+    out, fin = monitors.split_obs(obs)
+    if len(out) < len(toks):
+        return 'a form crashed the host' if 'p' in out else None
+    fs = [out[i] for i, t in enumerate(toks) if t == 'fs']
+    sts = [out[i] for i, t in enumerate(toks) if t == 'st']
+    if len(fs) != 2:
+        return None
+    fa, fb = monitors.final_fields_str(fs[0]), monitors.final_fields_str(fs[1])
+    ra = [int(x, 16) for x in fa['R'].split(',')]
+    rb = [int(x, 16) for x in fb['R'].split(',')]
+    na = toks.index('fs')
+    okA = all(o == 'ok' for o in sts[:toks[:na].count('st')])
+    okB = all(o == 'ok' for o in sts[toks[:na].count('st'):])
+    if okA != okB:
+        return 'one form completed and the other did not: %s' % sts
+    if not okA:
+        if sts[toks[:na].count('st') - 1] != sts[-1]:
+            return 'the two forms fail differently: %s' % sts
+    NZVC = 0x3c0000
+    if kind == 'same':
+        if ra[:15] != rb[:15]:
+            return 'registers differ between the two forms: %s vs %s' % (fa['R'], fb['R'])
+        for k in ('nv', 'vid'):
+            if fa[k] != fb[k]:
+                return '%s differs between the two forms' % k
+        ia = [i for i, t in enumerate(toks) if t == 'fs']
+        da, db = out[ia[0] + 1: ia[0] + 9], out[ia[1] + 1: ia[1] + 9]
+        if da != db:
+            return 'data memory differs between the two forms: %s vs %s' % (da, db)
+    elif kind == 'regs':
+        if ra[:15] != rb[:15]:
+            return 'registers differ between push+pop and move: %s vs %s' % (fa['R'], fb['R'])
+    elif kind == 'nz':
+        if (ra[11] & 0x300000) != (rb[11] & 0x300000):
+            return 'BIT and AND set different N/Z: %x vs %x' % (ra[11], rb[11])
+    elif kind.startswith('value'):
+        if (ra[11] & NZVC) != (rb[11] & NZVC):
+            return 'register and memory operand forms set different condition codes: %x vs %x' % (ra[11], rb[11])
+        ia = [i for i, t in enumerate(toks) if t == 'fs']
+        sz = int(kind.split(':')[1])
+        vb = out[ia[1] + 8]
+        if okA and vb.startswith('v') and (ra[3] & ((1 << (8 * sz)) - 1)) != (int(vb[1:], 16) >> (8 * (4 - sz))):
+            return 'register and memory operand forms computed different results: r3=%x vs memory %s' % (ra[3], vb)
+    return None
+
+
+PROPS['C18'] = {'gen': gen_c18, 'monitors': [mon_c18]}
 PROPS['C05'] = {'gen': gen_c05, 'monitors': [mon_c05]}
 PROPS['C02'] = {'gen': gen_c02, 'monitors': []}
 PROPS['C03'] = {'gen': gen_c03, 'monitors': []}
